@@ -202,6 +202,52 @@ func c10(tier string, args []string) int {
 						}
 					}
 				}
+				// ---- (1b) the reinitialisation message is unauthenticated by design (its effect on the
+				// round it names is confirmed out of band by hash); it must not be a vehicle for
+				// changing ANOTHER, existing round: (i) forged contributions for this round embedded
+				// in a reinit of a fresh round, (ii) a reinit of a fresh round posted under this
+				// round's id
+				if bs.Pre == "none" && bs.K >= 1 {
+					var parts []types.Participant
+					for pi, nd := range w.Nodes {
+						parts = append(parts, types.Participant{DKGPubKey: w.Airs[pi].PubKeyBytes(), OldCommPubKey: nd.KeyPair.Pub, NewCommPubKey: nd.KeyPair.Pub, Name: nd.Name})
+					}
+					fresh := strings.Repeat("ab", 16)
+					roundBefore := string(bs.Snap.Rounds()[rec.Round])
+					var embed []storage.Message
+					for j := bs.K; j < len(rec.Log) && j < bs.K+3*nt.n; j++ {
+						g := rec.Log[j]
+						if addressed(rec, v, g) && contributionEvents[g.Event] && claimedParticipant(g.Data) != nil && g.SenderAddr != w.Nodes[v].Name {
+							g.Signature = nil
+							embed = append(embed, g)
+						}
+					}
+					for _, in := range lab.DKGAlphabet() {
+						if in.Fail && in.Variant == "valid" && in.PID >= 0 && in.PID < nt.n && in.PID != v {
+							m := in.Msg
+							m.Signature = nil
+							embed = append(embed, m)
+						}
+					}
+					for _, fm := range embed {
+						re := types.ReDKG{DKGID: fresh, Threshold: nt.t, Participants: parts, Messages: []storage.Message{fm}}
+						mm := storage.Message{DkgRoundID: fresh, Event: string(types.ReinitDKG), Data: world.MustJSON(re), SenderAddr: "anyone"}
+						err, after, _ := lab.Step(bs.Snap, mm)
+						evals++
+						classes["reinit-embedded|"+bs.Phase+"|"+fm.Event] = true
+						if got := string(after.Rounds()[rec.Round]); got != roundBefore {
+							r.Violation("C10/via-reinit-of-another-round/"+fm.Event, fmt.Sprintf("in %s an unsigned %s in %s's name for this round, embedded in an (unauthenticated) reinitialisation message of another, fresh round, changed this round: now %s (error: %v)", bs, fm.Event, fm.SenderAddr, after.RoundState(rec.Round), err), map[string]interface{}{"n": nt.n, "t": nt.t, "base": bs.String(), "embedded_event": fm.Event, "in_the_name_of": fm.SenderAddr, "reinit_round": fresh})
+						}
+					}
+					re := types.ReDKG{DKGID: fresh, Threshold: nt.t, Participants: parts}
+					mm := storage.Message{DkgRoundID: rec.Round, Event: string(types.ReinitDKG), Data: world.MustJSON(re), SenderAddr: "anyone"}
+					err, after, _ := lab.Step(bs.Snap, mm)
+					evals++
+					classes["reinit-envelope|"+bs.Phase] = true
+					if got := string(after.Rounds()[rec.Round]); got != roundBefore {
+						r.Violation("C10/reinit-posted-under-another-rounds-id", fmt.Sprintf("in %s an (unauthenticated) reinitialisation message of a fresh round %s posted under this round's id replaced this round's state: now %q (error: %v)", bs, fresh[:8], after.RoundState(rec.Round), err), map[string]interface{}{"n": nt.n, "t": nt.t, "base": bs.String(), "reinit_round": fresh})
+					}
+				}
 				// ---- (2) replay of recorded messages into another round / under another event name
 				if bs.Pre != "none" {
 					continue
